@@ -15,7 +15,8 @@ theorem cs_chain (b1 b2 b3 b4 : Bool) (idv cav clv usr uv y1 x1 y2 x2 ncv ccv : 
     (Y1 X1 Y2 X2 : Int)
     (h_id : rUlong idv = .ok idx) (h_ca : rTimestamp cav = .ok cax) (h_cl : rTimestamp clv = .ok clx)
     (h_u : rUlong uv = .ok ux) (h_y1 : rCoord y1 = .ok Y1) (h_x1 : rCoord x1 = .ok X1) (h_y2 : rCoord y2 = .ok Y2)
-    (h_x2 : rCoord x2 = .ok X2) (h_nc : rUlong ncv = .ok ncx) (h_cc : rUlong ccv = .ok ccx) :
+    (h_x2 : rCoord x2 = .ok X2) (h_nc : rUlong ncv = .ok ncx) (h_cc : rUlong ccv = .ok ccx)
+    (h_usr : usr.length ≤ 1024) :
     initChangesetAttrs ([("id", idv)] ++ optA b1 "created_at" cav ++
         (if b2 then [("closed_at", clv), ("open", bFalse)] else [("open", bTrue)]) ++
         (if b3 then [("user", usr), ("uid", uv)] else []) ++
@@ -24,9 +25,10 @@ theorem cs_chain (b1 b2 b3 b4 : Bool) (idv cav clv usr uv y1 x1 y2 x2 ncv ccv : 
       .ok { id := idx, createdAt := if b1 then cax else 0, closedAt := if b2 then clx else 0, numChanges := ncx,
             numComments := ccx, uid := if b3 then ux else 0, user := if b3 then usr else [],
             bl := if b4 then ⟨X1, Y1⟩ else Location.undefined, tr := if b4 then ⟨X2, Y2⟩ else Location.undefined } := by
+  have hlen : ¬ (1024 < usr.length) := by omega
   cases b1 <;> cases b2 <;> cases b3 <;> cases b4 <;>
     simp (config := { decide := true }) [optA, initChangesetAttrs, h_id, h_ca, h_cl, h_u, h_y1, h_x1, h_y2, h_x2, h_nc, h_cc,
-      Location.undefined]
+      Location.undefined, OplFmt.maxString, hlen]
 
 theorem toIso_of_ne (t : Nat) (h : (t != 0) = true) : toIso t = toIsoAll t := if_pos h
 
@@ -111,7 +113,7 @@ theorem cs_attrs_spec (id ca cl nc ncm : Nat) (uid : Int) (user : Bytes) (bl tr 
       user uv (formatCoord bl.y) (formatCoord bl.x) (formatCoord tr.y) (formatCoord tr.x) ncv ccv id ca cl uid.toNat nc ncm
       bl.y bl.x tr.y tr.x rid (rTimestamp_toIsoAll ca h.ca) (rTimestamp_toIsoAll cl h.cl) ru
       (rCoord_formatCoord _ by0 by1) (rCoord_formatCoord _ bx0 bx1) (rCoord_formatCoord _ ty0 ty1)
-      (rCoord_formatCoord _ tx0 tx1) rnc rcc
+      (rCoord_formatCoord _ tx0 tx1) rnc rcc (xstrOK_spec h.user).choose_spec.2.2
     unfold initChangeset
     rw [hch]
     simp only [bindE_ok]
